@@ -81,15 +81,11 @@ func (t *Tokenizer) Parse(buf []byte, handler oj.TokenHandler) (err error) {
 		}
 	}()
 	// Skip BOM if present.
-	if 3 < len(buf) && buf[0] == 0xEF {
-		if buf[1] == 0xBB && buf[2] == 0xBF {
-			t.tokenizeBuffer(buf[3:], true)
-		} else {
-			return fmt.Errorf("expected BOM at 1:3")
-		}
-	} else {
-		t.tokenizeBuffer(buf, true)
+	var skip int
+	if skip, err = bomSkip(buf); err != nil {
+		return
 	}
+	t.tokenizeBuffer(buf[skip:], true)
 	return
 }
 
@@ -127,8 +123,8 @@ func (t *Tokenizer) Load(r io.Reader, handler oj.TokenHandler) (err error) {
 	}
 	var skip int
 	// Skip BOM if present.
-	if 3 < len(buf) && buf[0] == 0xEF && buf[1] == 0xBB && buf[2] == 0xBF {
-		skip = 3
+	if skip, err = bomSkip(buf); err != nil {
+		return
 	}
 	for {
 		if 0 < skip {
